@@ -213,6 +213,9 @@ pub struct CompressorWriter<W: Write> {
 }
 
 const ZERO: [u8; 4] = [0u8; 4];
+/// ghost switch: when false (default) the model compressor forwards NO bytes to the inner writer
+/// (pure position/flush model); when true each call may forward a fixed 4-byte piece
+pub static mut COMP_EMIT: bool = false;
 
 impl<W: Write> CompressorWriter<W> {
     pub fn new(w: W, _buffer_size: usize, q: u32, lgwin: u32) -> Self {
@@ -229,7 +232,7 @@ impl<W: Write> CompressorWriter<W> {
         // nothing or a fixed-size piece: the *count* stays a constant for the symbolic executor
         // (a symbolic count would drag the u32 conversion error path of WriterWithCount — a boxed
         // `dyn Error` created and dropped — into every path)
-        if nd_bool() {
+        if unsafe { COMP_EMIT } && nd_bool() {
             self.inner.write_all(&ZERO)
         } else {
             Ok(())
